@@ -79,7 +79,7 @@ impl Executor for BashScriptExecutor {
         testcases: &[&TestCase],
         context: &ExecutionContext,
     ) -> Result<Vec<Output>> {
-        let testcase = compile_testcase(testcases, context)?;
+        let (testcase, salt) = compile_testcase(testcases, context)?;
         let runner = SubprocessRunner(self.0.to_owned());
         let output = runner
             .run("script", &testcase, context)
@@ -94,8 +94,8 @@ impl Executor for BashScriptExecutor {
                     ExecutionTimeout::Total,
                     vec![Output {
                         exit_code: output.exit_code,
-                        stderr: remove_dividers_from_output(&output.stderr),
-                        stdout: remove_dividers_from_output(&output.stdout),
+                        stderr: remove_dividers_from_output(&output.stderr, &salt),
+                        stdout: remove_dividers_from_output(&output.stdout, &salt),
                     }],
                 ));
             }
@@ -112,6 +112,7 @@ impl Executor for BashScriptExecutor {
         let mut outputs = vec![];
         iterate_divided_output(
             "STDOUT",
+            &salt,
             (&output.stdout).into(),
             |_index: usize, out: &[u8], exit_code: i32| {
                 outputs.push(Output {
@@ -146,6 +147,7 @@ impl Executor for BashScriptExecutor {
         if testcase.config.output_stream != Some(OutputStreamControl::Combined) {
             iterate_divided_output(
                 "STDERR",
+                &salt,
                 (&output.stderr).into(),
                 |index: usize, out: &[u8], _exit_code: i32| {
                     if index >= outputs.len() {
@@ -171,7 +173,10 @@ impl Executor for BashScriptExecutor {
 /// Reduce a list of [`TestCase`] into a single one that has as it's shell
 /// expression a compiled bash script that executes all expressions and that
 /// uses a shared configuration
-fn compile_testcase(testcases: &[&TestCase], context: &ExecutionContext) -> Result<TestCase> {
+fn compile_testcase(
+    testcases: &[&TestCase],
+    context: &ExecutionContext,
+) -> Result<(TestCase, String)> {
     let mut config = TestCaseConfig::empty();
 
     // iterate all test cases and make sure that they have a consistent configuration
@@ -216,25 +221,30 @@ fn compile_testcase(testcases: &[&TestCase], context: &ExecutionContext) -> Resu
     }
 
     // create a bash script that executes all testcases
-    let script = compile_script(testcases, &config)?;
+    let salt = random_string(SUFFIX_RANDOM_SIZE);
+    let script = compile_script(testcases, &config, &salt)?;
 
     // the environment variables are already exported in the compiled script
     config.environment.clear();
 
-    Ok(TestCase {
-        title: "Test Script".into(),
-        shell_expression: script,
-        config,
-        ..Default::default()
-    })
+    Ok((
+        TestCase {
+            title: "Test Script".into(),
+            shell_expression: script,
+            config,
+            ..Default::default()
+        },
+        salt,
+    ))
 }
 
 /// Returns output stream that does not contain any line that starts with a divider prefix
-fn remove_dividers_from_output(output: &OutputStream) -> OutputStream {
+fn remove_dividers_from_output(output: &OutputStream, salt: &str) -> OutputStream {
     let text: &[u8] = &output.to_bytes();
+    let divider_start = [DIVIDER_PREFIX_BYTES, salt.as_bytes()].concat();
     let mut updated = vec![];
     for line in text.split_at_newline() {
-        if line.starts_with(DIVIDER_PREFIX_BYTES) {
+        if line.starts_with(&divider_start) {
             continue;
         }
         updated.push(line);
@@ -243,11 +253,10 @@ fn remove_dividers_from_output(output: &OutputStream) -> OutputStream {
 }
 
 /// Compiles all shell expressions of a list of [`TestCase`]s into a single bash script
-fn compile_script(testcases: &[&TestCase], config: &TestCaseConfig) -> Result<String> {
+fn compile_script(testcases: &[&TestCase], config: &TestCaseConfig, salt: &str) -> Result<String> {
     use std::borrow::Cow;
 
     let mut expressions = vec![];
-    let salt = random_string(SUFFIX_RANDOM_SIZE);
     for (index, testcase) in testcases.iter().enumerate() {
         if testcase.config.timeout.is_some() {
             return Err(ExecutionError::failed(
@@ -282,7 +291,7 @@ fn compile_script(testcases: &[&TestCase], config: &TestCaseConfig) -> Result<St
         expressions.push(testcase.shell_expression.to_string());
 
         // add footer that divides from next execution and captures exit code
-        let footer = generate_divider(&salt, index);
+        let footer = generate_divider(salt, index);
         expressions.push("".to_string());
         expressions.push(format!(r#"echo "{}""#, &footer));
         if config.output_stream != Some(OutputStreamControl::Combined) {
@@ -293,15 +302,15 @@ fn compile_script(testcases: &[&TestCase], config: &TestCaseConfig) -> Result<St
     Ok(expressions.join("\n"))
 }
 
-fn iterate_divided_output<C>(name: &str, output: &[u8], mut callback: C) -> Result<()>
+fn iterate_divided_output<C>(name: &str, salt: &str, output: &[u8], mut callback: C) -> Result<()>
 where
     C: FnMut(usize, &[u8], i32) -> Result<()>,
 {
     let mut buffer = vec![];
     let mut expected_index = 0;
     for line in output.split_at_newline() {
-        let divider =
-            parse_divider_bytes(line).map_err(|err| ExecutionError::failed(expected_index, err))?;
+        let divider = parse_salted_divider_bytes(line, salt)
+            .map_err(|err| ExecutionError::failed(expected_index, err))?;
         match divider {
             DividerSearch::NotFound => buffer.push(line.to_vec()),
             DividerSearch::Found {
@@ -351,6 +360,36 @@ enum DividerSearch {
         exit_code: i32,
     },
     NotFound,
+}
+
+/// Only a divider that carries the salt of this execution is one: any other
+/// line that contains the divider prefix is output of the test, like any
+/// other line
+fn parse_salted_divider_bytes(line: &[u8], salt: &str) -> anyhow::Result<DividerSearch> {
+    let line = line.trim_newlines();
+    let start = [DIVIDER_PREFIX_BYTES, salt.as_bytes(), b"::"].concat();
+    let Some(index) = line
+        .windows(start.len())
+        .position(|window| window == &start[..])
+    else {
+        return Ok(DividerSearch::NotFound);
+    };
+    match parse_divider_bytes(&line[index..])? {
+        DividerSearch::Found {
+            prefix: _,
+            output_index,
+            exit_code,
+        } => Ok(DividerSearch::Found {
+            prefix: if index > 0 {
+                Some(line[0..index].to_vec())
+            } else {
+                None
+            },
+            output_index,
+            exit_code,
+        }),
+        DividerSearch::NotFound => Ok(DividerSearch::NotFound),
+    }
 }
 
 /// Extracts index and exit code from lines that contain the divider. Output
